@@ -4,7 +4,7 @@
    (tokenizer model exhaustively on short strings, grammar-derived descriptions with an independent denotation). *)
 From Coq Require Import String.
 From CP Require Import Model.Base Generated.Consts Model.Ranges Model.Lex Model.RangeParse Model.Dec Model.DecRange Proofs.RangeProofs
-  Proofs.RangeParseProofs Proofs.RangeTextProofs Proofs.DecRangeParseProofs.
+  Proofs.RangeParseProofs Proofs.RangeTextProofs Model.RangeStr Proofs.DecRangeParseProofs.
 Local Open Scope Z_scope.
 
 (* a value is accepted iff it lies inside at least one item, both limits inclusive, an omitted limit = unbounded *)
@@ -65,6 +65,17 @@ Theorem written_description_accepts_exactly_what_it_describes : forall d v, d <>
   exists r, range_of_text (desc_text sep_text d) = POk r /\
             (range_validate r v = true <-> exists it, In it d /\ inside (sitem_den it) v).
 Proof. exact written_description_accepts_exactly. Qed.
+
+(* what a range prints for itself (Range.__str__: in messages, in generated documentation) is a description of exactly
+   that range: reading the printed text gives the same items back, for every range as Range.__init__ produces them *)
+Theorem printed_range_reads_back_as_itself : forall its, its <> [] -> Forall limited its ->
+  Forall (fun it => match it with (Some a, Some b) => a <= b | _ => True end) its -> no_overlap [] its ->
+  range_of_text (range_str (Some its)) = POk (Some its).
+Proof. exact printed_range_reads_back. Qed.
+Example printed_range_example :
+  range_str (Some [(Some (-5), Some (-5)); (None, Some (-10)); (Some 0, Some 99); (Some 1000, None)]) = txt "-5, ...-10, 0...99, 1000..."
+  /\ range_str None = txt "None".
+Proof. split; vm_compute; reflexivity. Qed.
 
 (* the same for decimal ranges: the token loop of DecimalRange.__init__ maps every grammar description (limits are NUMBER
    tokens in any decimal spelling, optionally behind a minus sign) to its items, and reports precision = the most digits
